@@ -6,7 +6,6 @@ development-only VF_DEV_EVIDENCE_DIR switch), and prints, per check, every minim
 observed value over the seeds is below 1.5x the threshold. A minimum that is only just met on
 the seeds tried will one day produce INCONCLUSIVE on the unchanged tree.
 """
-import importlib
 import json
 import os
 import subprocess
@@ -21,11 +20,18 @@ sys.path.insert(0, '/repo')
 def main():
   tier, seeds = sys.argv[1], [int(x) for x in sys.argv[2:]]
   ids = [c['property_id'] for c in json.load(open(os.path.join(ROOT, 'MANIFEST.json')))['checks']]
+  if os.environ.get('MARGINS_ONLY'):
+    ids = [i for i in ids if i in os.environ['MARGINS_ONLY'].split(',')]
   for cid in ids:
-    mins = importlib.import_module('vf.checks.' + cid.lower()).MINIMUMS.get(tier, {})
+    # (a fresh process: the check modules may have been edited since this tool started)
+    allmins = json.loads(subprocess.run(
+        ['/venv/bin/python', '-B', '-c',
+         f'import json; from vf.checks import {cid.lower()} as m; print(json.dumps(m.MINIMUMS))'],
+        cwd=ROOT, env=dict(os.environ, PYTHONPATH=f'/repo:{ROOT}'), capture_output=True, text=True,
+        check=True).stdout.strip().split('\n')[-1])
+    mins = allmins.get(tier, {})
     if tier == 'thorough':
-      q = importlib.import_module('vf.checks.' + cid.lower()).MINIMUMS.get('quick', {})
-      mins = {**q, **mins}
+      mins = {**allmins.get('quick', {}), **mins}
     worst = {}
     status = []
     for s in seeds:
